@@ -47,10 +47,16 @@ def dump(rich: bool, timeout=1500):
     return res, [p for p in res.printed if isinstance(p, dict) and "doc" in p]
 
 
+# what stands for "a letter": an ordinary letter, or a character that some libraries take for a line end or a blank but XML
+# and ODF do not (U+2028 LINE SEPARATOR, U+0085 NEXT LINE, U+00A0 NO-BREAK SPACE)
+LETTERS = ("x", "x", "\u2028", "\u0085", "\u00a0")
+_letter = ["x"]
+
+
 def chars(s) -> str | None:
     if not s:
         return None
-    return "".join("x" if c == 1 else " " for c in s)
+    return "".join(_letter[0] if c == 1 else " " for c in s)
 
 
 def tag_of(node, parent_kind, index) -> str:
@@ -104,7 +110,7 @@ def decode_ws(s, base: int):
             out.append(100 + (j - i - 1) // len(TAB) - base)
             i = j
         else:
-            out.append(1 if ch == "x" else 0)
+            out.append(0 if ch == " " else 1)
             i += 1
     return out
 
@@ -140,6 +146,7 @@ def replay(entries, batch=400):
         body = doc.body
         body.clear()
         for i, e in enumerate(chunk):
+            _letter[0] = LETTERS[(b0 + i) % len(LETTERS)]
             el = build(e["doc"])
             el.set(TX + "name", f"d{b0 + i}")
             body.append(Element.from_tag(el))
